@@ -167,7 +167,10 @@ pub fn apply_update_at(r: &mut Rg, p: &mut Pset, u: &Update, ii: usize, oi: usiz
             p.inputs_mut()[ii].tap_script_sigs.insert(k, gp::schnorr_sig(r));
         }
         Update::FinalScriptSig => p.inputs_mut()[ii].final_script_sig = Some(elements::Script::from(gen::bytes(r, 20))),
-        Update::FinalScriptWitness => p.inputs_mut()[ii].final_script_witness = Some(vec![gen::bytes(r, 72), gen::bytes(r, 33)]),
+        Update::FinalScriptWitness => {
+            // now and then present but empty (what from_tx leaves for an unsigned input)
+            p.inputs_mut()[ii].final_script_witness = Some(if r.gen_range(0..4) == 0 { vec![] } else { vec![gen::bytes(r, 72), gen::bytes(r, 33)] })
+        }
         Update::RedeemScript => p.inputs_mut()[ii].redeem_script = Some(gp::small_script(r)),
         Update::WitnessScript => p.inputs_mut()[ii].witness_script = Some(gp::small_script(r)),
         Update::Bip32 => {
